@@ -39,3 +39,174 @@ Theorem c12_offset_validator_decides : forall n o,
   next_boundary_b tar_block n o = true <-> NextBoundary tar_block n o.
 Proof. intros. apply next_boundary_b_iff. reflexivity. Qed.
 Print Assumptions c12_offset_validator_decides.
+
+(* ---- environment ------------------------------------------------------------------
+   For every configured environment (a Go map: distinct keys), every order
+   [dord] in which Go ranges over the defaults literal and every order [ord] in
+   which it ranges over the merged map: the rendered Env is sorted, and is — up
+   to order — one "k=v" entry per configured binding plus one per default whose
+   key is not configured (so a configured value always wins and a default
+   appears only when its key is unset); hence it is the same list for every
+   pair of iteration orders. [default_env] and the entry format are the ones in
+   image.go on this run. *)
+Theorem c12_env : forall env dord ord,
+  NoDup (akeys env) ->
+  Permutation dord (akeys default_env) ->
+  Permutation ord (akeys (with_defaults default_env dord env)) ->
+  EnvOk default_env env (render_env default_env dord env ord) /\
+  (forall dord' ord', Permutation dord' (akeys default_env) ->
+     Permutation ord' (akeys (with_defaults default_env dord' env)) ->
+     render_env default_env dord' env ord' = render_env default_env dord env ord) /\
+  env_entry_format = "%s=%s".
+Proof. exact render_env_full. Qed.
+Print Assumptions c12_env.
+
+Example c12_env_configured_wins :
+  render_env default_env ["SSL_CERT_FILE"; "PATH"] [("PATH", "/bin"); ("A", "1")] ["SSL_CERT_FILE"; "A"; "PATH"]
+  = ["A=1"; "PATH=/bin"; "SSL_CERT_FILE=/etc/ssl/certs/ca-certificates.crt"].
+Proof. vm_compute. reflexivity. Qed.
+
+Theorem c12_env_validator_decides : forall defaults env out,
+  env_tags defaults env out = [] <-> EnvOk defaults env out.
+Proof. exact env_tags_iff. Qed.
+Print Assumptions c12_env_validator_decides.
+
+(* ---- config mapping ---------------------------------------------------------------
+   For every shell-word splitter [shlex] and time formatter [rfc3339] (external:
+   github.com/google/shlex, time.Format), every base config, image
+   configuration, creation time, architecture string and iteration orders:
+   BuildImageFromLayers either fails because shlex rejects a command line it
+   has to split, or yields a config that mirrors the configuration:
+   entrypoint = /bin/sh -c <fragment> when a shell fragment is declared, else
+   the split of the command, else inherited; cmd likewise; working dir, user,
+   stop signal = the declared value when non-empty; volumes = the declared set;
+   Env as in c12_env; labels = annotations overridden by source/revision (the
+   VCS URL cut at its FIRST '@', only when it has one) and by created; created
+   time; platform = ToOCIPlatform(arch); OS linux. *)
+Theorem c12_config_mapping : forall shlex rfc3339 base ic created arch dord eord,
+  NoDup (akeys (ic_env ic)) ->
+  Permutation dord (akeys default_env) ->
+  Permutation eord (akeys (with_defaults default_env dord (ic_env ic))) ->
+  match build_config shlex rfc3339 base ic created arch dord eord with
+  | Ok cfg => ConfigMirrors shlex rfc3339 (to_oci_platform arch) base ic created cfg
+  | Err => shlex_failed shlex ic
+  | _ => False
+  end.
+Proof. exact build_config_mirrors. Qed.
+Print Assumptions c12_config_mapping.
+
+(* strings.Cut at the first separator, as the specification of the VCS split *)
+Theorem c12_vcs_cut : forall s url hash,
+  cut_at vcs_separator s = Some (url, hash) <->
+  (s = (url ++ String "@"%char hash)%string /\ has_char "@"%char url = false).
+Proof. intros. apply (cut_at_some "@"%char). Qed.
+Print Assumptions c12_vcs_cut.
+
+(* the index carries the same three annotations *)
+Theorem c12_index_annotations : forall rfc3339 ic created k,
+  alookup k (index_annotations rfc3339 (ic_vcs_url ic) created (ic_annotations ic)) =
+  expected_label rfc3339 ic created k.
+Proof. exact index_labels_lookup. Qed.
+Print Assumptions c12_index_annotations.
+
+Theorem c12_config_validator_decides : forall shlex rfc3339 plat base ic created cfg,
+  config_tags shlex rfc3339 plat base ic created cfg = [] <->
+  ConfigMirrors shlex rfc3339 plat base ic created cfg.
+Proof. exact config_tags_iff. Qed.
+Print Assumptions c12_config_validator_decides.
+
+Example c12_config_example :
+  exists cfg,
+    build_config (fun s => if String.eqb s "/usr/bin/app --flag" then Some ["/usr/bin/app"; "--flag"] else None)
+      (fun _ => "2023-11-14T22:13:20Z") empty_config
+      {| ic_shell_fragment := ""; ic_command := "/usr/bin/app --flag"; ic_cmd := ""; ic_workdir := "/w";
+         ic_run_as := "65532"; ic_stop_signal := ""; ic_volumes := ["/data"];
+         ic_env := [("PATH", "/bin")]; ic_annotations := [("a", "b")]; ic_vcs_url := "https://x/y@abc@def" |}
+      1700000000 "armv7" ["PATH"; "SSL_CERT_FILE"] ["PATH"; "SSL_CERT_FILE"] = Ok cfg /\
+    oc_entrypoint cfg = ["/usr/bin/app"; "--flag"] /\ oc_variant cfg = "v7" /\
+    alookup "org.opencontainers.image.revision" (oc_labels cfg) = Some "abc@def" /\
+    oc_env cfg = ["PATH=/bin"; "SSL_CERT_FILE=/etc/ssl/certs/ca-certificates.crt"].
+Proof. eexists. split; [vm_compute; reflexivity|]. repeat split. Qed.
+
+(* ---- platform table ----------------------------------------------------------------
+   Finite domain, enumerated completely: every string that occurs in AllArchs,
+   in any of the three generated switch tables (as a case label or a result)
+   or in the specification's list of apk architecture names — 9 canonical
+   names and their apk-style aliases. For each: parsing canonicalises it, the
+   OCI platform of the parsed value (and of the raw string: ToOCIPlatform
+   parses again) is the architecture string split at '/', the canonical name is
+   in AllArchs, and ToAPK maps it to an apk name that parses back. *)
+Theorem c12_platform_table : forall s, In s known_arch_names ->
+  to_oci_platform (parse_architecture s) = expected_platform s /\
+  to_oci_platform s = expected_platform s /\
+  parse_architecture s = spec_canonical s /\
+  In (spec_canonical s) all_archs /\
+  parse_architecture (to_apk s) = spec_canonical s /\
+  In (to_apk s) (List.map fst apk_names).
+Proof. exact platform_table_ok. Qed.
+Print Assumptions c12_platform_table.
+
+(* the enumerated domain covers AllArchs and every apk-style name *)
+Theorem c12_platform_table_covers :
+  (forall a, In a all_archs -> In a known_arch_names /\ spec_canonical a = a /\
+      exists apk, In (apk, a) apk_names) /\
+  (forall apk oci, In (apk, oci) apk_names -> In apk known_arch_names /\ In oci all_archs) /\
+  oci_platform_os = expected_os.
+Proof. exact platform_table_covers. Qed.
+Print Assumptions c12_platform_table_covers.
+
+Example c12_platform_armhf : to_oci_platform (parse_architecture "armhf") = ("arm", "v6").
+Proof. reflexivity. Qed.
+
+(* ---- index ----------------------------------------------------------------------------
+   For every map from architecture keys to images (distinct keys, any abstract
+   descriptor type) and every order in which Go ranges over it: the index has
+   exactly one manifest per requested architecture, carrying that
+   architecture's image, sorted by architecture string, each with the platform
+   ToOCIPlatform gives for its key and OS linux; and it is the same list for
+   every iteration order. *)
+Theorem c12_index : forall (D : Type) (imgs : list (string * D)) ord,
+  NoDup (akeys imgs) -> Permutation ord (akeys imgs) ->
+  IndexOk to_oci_platform imgs (generate_index imgs ord) /\
+  (forall ord', Permutation ord' (akeys imgs) -> generate_index imgs ord' = generate_index imgs ord) /\
+  List.length (generate_index imgs ord) = List.length imgs /\
+  oci_platform_os = expected_os.
+Proof. intro D. exact generate_index_ok. Qed.
+Print Assumptions c12_index.
+
+Example c12_index_example :
+  List.map ie_key (generate_index [("s390x", 1); ("arm/v7", 2); ("amd64", 3)] ["arm/v7"; "amd64"; "s390x"])
+  = ["amd64"; "arm/v7"; "s390x"].
+Proof. vm_compute. reflexivity. Qed.
+
+(* ---- the bundle contains every image its index lists: refuted / partial -----------------
+   BuildIndex keys the images it hands to the tarball writer by
+   "<tag>-<Platform.Architecture>", ignoring the variant: with arm/v6 and
+   arm/v7 together (both are in AllArchs) the first is replaced by the second
+   and its config and layers never reach the archive (finding C12-F1). The full
+   statement "for every architecture subset, every image is in the bundle" is
+   therefore false of the model and of the code; it holds whenever the
+   requested architectures have pairwise different platform architectures and
+   at least one tag is given. Missing for the full statement: the variant in
+   the key. *)
+Theorem c12_bundle_complete_refuted :
+  exists ntags archs, ntags <> 0 /\ incl archs all_archs /\ NoDup archs /\
+    ~ BundleComplete (bundle_included ntags archs) /\
+    bundle_included ntags archs = [false; true].
+Proof. exact bundle_complete_refuted. Qed.
+Print Assumptions c12_bundle_complete_refuted.
+
+Theorem c12_bundle_complete_partial : forall ntags archs,
+  ntags <> 0 -> NoDup (List.map bundle_key archs) -> BundleComplete (bundle_included ntags archs).
+Proof. exact bundle_complete_partial. Qed.
+Print Assumptions c12_bundle_complete_partial.
+
+Example c12_bundle_complete_without_armv6 :
+  BundleComplete (bundle_included 2 ["386"; "amd64"; "arm64"; "arm/v7"; "loong64"; "ppc64le"; "riscv64"; "s390x"]).
+Proof. vm_compute. repeat constructor. Qed.
+
+Theorem c12_bundle_validator_decides : forall plat archs included,
+  bundle_complete_tags_with plat archs included = [] <->
+  (List.length archs = List.length included /\ BundleComplete included).
+Proof. exact bundle_complete_tags_iff. Qed.
+Print Assumptions c12_bundle_validator_decides.
